@@ -59,6 +59,10 @@ func gen(g *kernel.Rng, seed uint64, tier string) *kernel.Plan {
 			if g.Bool(0.1) {
 				ln = int64(g.Range(1, int(budget)))
 			}
+			if i == 0 && g.Bool(0.15) {
+				ln = int64(g.Range(4000, 9000)) // crosses the writer's 4096-byte buffer: a flush in the middle of the message
+				budget += ln
+			}
 			if ln > budget {
 				ln = 1 + ln%budget
 			}
@@ -73,6 +77,7 @@ func gen(g *kernel.Rng, seed uint64, tier string) *kernel.Plan {
 		p.Cfg["dim"] = int64(g.Intn(len(fdims)))
 		p.Cfg["flags"] = int64(g.Intn(4))
 		p.Cfg["rseg"] = int64(g.Pick(2, 2, 3, 2, 2))
+		p.Cfg["eofdata"] = int64(g.Pick(2, 1))
 		n := g.Range(0, 8)
 		for i := 0; i < n; i++ {
 			sz := g.OneOf(0, 1, 2, 11, 255, 256, int64(g.Range(0, 600)))
@@ -705,6 +710,7 @@ func flvOne(p *kernel.Plan, res *kernel.Result, f kernel.Fault, file []byte, tag
 		d := simnet.NewPipe("disk", nil, tape)
 		d.NoYield = true
 		d.RSeg = int(p.C("rseg"))
+		d.EOFData = p.C("eofdata") != 0
 		causes := []error{io.EOF, io.ErrUnexpectedEOF}
 		D := int64(len(file))
 		if f.K == "cut" {
@@ -810,6 +816,7 @@ func flvOne(p *kernel.Plan, res *kernel.Result, f kernel.Fault, file []byte, tag
 		torn := simnet.NewPipe("disk", nil, kernel.NewTape(p))
 		torn.NoYield = true
 		torn.RSeg = int(p.C("rseg"))
+		torn.EOFData = p.C("eofdata") != 0
 		torn.Write(d.Wire)
 		torn.CloseWrite()
 		_, msg := demux(torn, res, tags, int64(len(d.Wire)), []error{io.EOF, io.ErrUnexpectedEOF}, hv, ha)
